@@ -89,15 +89,20 @@ def g2(ctx):
     f = ctx.own_method(GIT + ".TreeGitStore", "get_ctag")
     cfg = ctx.cfg(f)
     du = DefUse(cfg)
-    ok = False
-    for r in [n for n in cfg.nodes if n.kind == "return"]:
+    rets = [n for n in cfg.nodes if n.kind == "return"]
+    ok = bool(rets)
+    for r in rets:
+        this = False
         for x in ast.walk(r.ast.value):
             if isinstance(x, ast.Call) and isinstance(x.func, ast.Attribute) and x.func.attr == "commit" and isinstance(x.func.value, ast.Name):
                 for d in du.reaching(r, x.func.value.id):
                     if isinstance(d.value, ast.Call) and dotted(d.value.func) == "self.repo.open_index":
-                        ok = True
+                        this = True
+        # the listing of the tree store comes from the index, so the tag must come from the index on EVERY path
+        ok = ok and this
     obs.append(ctx.ob(ok, f.qualname, f.where, "tree ctag is Index.commit() of a freshly opened index", "self.repo.open_index().commit(object_store)",
-                      "TreeGitStore.get_ctag does not return the tree id written from a freshly opened index"))
+                      "TreeGitStore.get_ctag has a return that is not the tree id written from a freshly opened index: members are listed from the index, so a tag "
+                      "taken from the branch head moves before/without the visible membership changing"))
     for cq in (GIT + ".BareGitStore", GIT + ".TreeGitStore"):
         f = ctx.own_method(cq, "get_ctag")
         bad = [dotted(c.func) for c in walk_local(f.node) if isinstance(c, ast.Call) and (dotted(c.func) or "").startswith(CLOCKS)]
